@@ -124,6 +124,25 @@ class ConcreteAPI(object):
         return self.traph_module().Traph(**kw)
 
     @property
+    def struct(self):
+        import struct
+        return struct
+
+    def raw_store(self, t, which):
+        st = t.lru_trie_storage if which == "trie" else t.links_store_storage
+        if hasattr(st, "array"):
+            return bytes(st.array)
+        f = st.file
+        f.flush()
+        with open(f.name, "rb") as g:
+            return g.read()
+
+    def module(self, name):
+        self.traph_module()
+        import importlib
+        return importlib.import_module(name)
+
+    @property
     def TraphException(self):
         return self.traph_module().TraphException
 
